@@ -104,6 +104,10 @@ type Target struct {
 	Meta     string    `json:"meta,omitempty"` // value of meta["receive_timeout"]; "" = key absent
 	Attempts []Attempt `json:"attempts,omitempty"`
 	Errs     string    `json:"errs,omitempty"` // error values (errKinds) of the attempts made once the script is exhausted
+	// Late (part real only): the target is not added at the start; its first "add"
+	// event adds it (an Add landing while another target's dial to the shared
+	// address is pending).
+	Late bool `json:"late,omitempty"`
 }
 
 // Event is one external call made by the harness goroutine.
@@ -132,6 +136,11 @@ type Scenario struct {
 	Targets       []Target `json:"targets"`
 	Events        []Event  `json:"events,omitempty"`
 	TailMs        int      `json:"tail_ms,omitempty"` // virtual time between the last event and the final Removes
+	// Real (part real, real_scenario.go): the manager runs over the real
+	// connection.Manager whose dial functions follow Dials[address index] (the
+	// k-th dial to an address behaves as the k-th step; ok at once afterwards).
+	Real  bool         `json:"real,omitempty"`
+	Dials [][]DialStep `json:"dials,omitempty"`
 }
 
 const ghost = "ghost"
@@ -207,6 +216,9 @@ func (sc *Scenario) validate() error {
 		if scriptLen(tg.Attempts) > maxScriptLen {
 			return fmt.Errorf("target %d: the script covers %d attempts (> %d)", i, scriptLen(tg.Attempts), maxScriptLen)
 		}
+	}
+	if verr := sc.validateReal(); verr != nil {
+		return verr
 	}
 	if sc.anyRecvTimeout() && sc.anySlowCallback() {
 		// Remove holds the manager-wide mutex while it waits for the target's
